@@ -49,6 +49,13 @@ namespace GeographicLib {
     real
       xf = x - tile_ * xh,
       yf = y - tile_ * yh;
+    // For x (or y) negative and tiny, x / tile_ can underflow to -0 and
+    // x - tile_ * xh rounds up to tile_.  Keep xf and yf in [0, tile_).
+    static const real tilemax = nextafter(real(tile_), real(0));
+    if (xf < 0) { --xh; xf += tile_; }
+    if (yf < 0) { --yh; yf += tile_; }
+    xf = fmin(xf, tilemax);
+    yf = fmin(yf, tilemax);
     xh += tileoffx_;
     yh += tileoffy_;
     int z = 0;
